@@ -10,6 +10,7 @@ extern "C" {
 #include "api/c/sol-handler-c.h"
 }
 #include "api/c/sol-handler-c-impl.h"
+#include "mp/nl-solver.h"
 
 namespace iosim {
 namespace {
@@ -192,7 +193,39 @@ SolReadResult read_sol(const std::string& path, const SolReadConfig& cfg) {
   SolRec h(cfg, r);
   QuietUtils utils;
   try {
-    if (cfg.c_party) {
+    if (cfg.easy_party && cfg.nvars > 0 && path.size() > 4) {
+      // The library's own consumer: an NLModel with the declared numbers of columns / rows (integer and continuous
+      // columns interleaved, so that the NL order is a proper permutation), loaded into an NLSolver whose stub is this
+      // .sol file's; NLSolver::ReadSolution() reads the file with SOLHandler_Easy and un-permutes.
+      const int n = cfg.nvars, m = std::max(0, cfg.ncons);
+      std::vector<double> lb((size_t)n, 0.0), ub((size_t)n, 10.0), c((size_t)n, 1.0), rlb((size_t)m, -5.0), rub((size_t)m, 50.0), aval;
+      std::vector<int> ty((size_t)n), aidx; std::vector<size_t> astart;
+      for (int j = 0; j < n; ++j) ty[(size_t)j] = (j % 2 == 0);
+      for (int i = 0; i < m; ++i) { astart.push_back(aidx.size()); aidx.push_back(i % n); aval.push_back(2.0 + i); }
+      std::string sol_bytes; sim::read_file(path, sol_bytes);          // LoadModel rewrites the stub's files: keep the .sol under test
+      mp::NLModel mdl("c14");
+      mdl.SetCols({n, lb.data(), ub.data(), ty.data()});
+      mdl.SetRows(m, rlb.data(), rub.data(), {m, NLW2_MatrixFormatRowwise, aidx.size(), astart.data(), aidx.data(), aval.data()});
+      mdl.SetLinearObjective(NLW2_ObjSenseMinimize, 0.0, c.data());
+      mp::NLSolver nls(&utils);
+      nls.SetFileStub(path.substr(0, path.size() - 4));
+      if (!nls.LoadModel(static_cast<const mp::NLModel&>(mdl))) { r.status = "easy-load-failed"; r.what = nls.GetErrorMessage(); }
+      else {
+        sim::write_file(path, sol_bytes);
+        mp::NLSolution sol = nls.ReadSolution();
+        // (NLSolver does not hand out the reader's code: an empty error message means the reader returned OK.  A file
+        //  without an objno line is read successfully and leaves the NLSolution without a solve result.)
+        const std::string em = nls.GetErrorMessage();
+        r.rc = em.empty() ? 0 : 3; r.msg = em;
+        if (em.empty()) {
+          r.got_msg = true; r.message = sol.solve_message_; r.nbs = sol.nbs_; r.got_code = (bool)sol; r.code = sol.solve_result_;
+          if (!sol.x_.empty() && (int)sol.x_.size() != n) h.fail("EASY_SIZE", "x", "NLSolver::ReadSolution returned " + std::to_string(sol.x_.size()) + " primal values for " + std::to_string(n) + " columns");
+          if ((int)sol.y_.size() > m) h.fail("EASY_SIZE", "y", "NLSolver::ReadSolution returned " + std::to_string(sol.y_.size()) + " dual values for " + std::to_string(m) + " rows");
+          VecRec vx; vx.what = 'x'; vx.offered = (int)sol.x_.size(); vx.vals = sol.x_; vx.st.assign(sol.x_.size(), 0); vx.mode = "easy"; r.vecs.push_back(vx);
+          VecRec vy; vy.what = 'y'; vy.offered = (int)sol.y_.size(); vy.vals = sol.y_; vy.st.assign(sol.y_.size(), 0); vy.mode = "easy"; r.vecs.push_back(vy);
+        }
+      }
+    } else if (cfg.c_party) {
       CRec crec{&cfg, &r};
       NLW2_SOLHandler_C hc; memset(&hc, 0, sizeof hc);
       hc.p_user_data_ = &crec; hc.Header = c_header; hc.OnSolveMessage = c_msg; hc.OnAMPLOptions = c_opts;
